@@ -54,6 +54,14 @@ def gen_pair(rng, dom, n, style):
             return [float(rng.randint(1, 4)) for _ in range(n)]
         return [rng.uniform(0.1, 10.0) for _ in range(n)]
     x, y = base(), base()
+    if style == "tiny":
+        # entries that differ by less than EPSILON (1e-20) or by a few ulps: y is x moved by a tiny step in some places
+        x = [0.0 if rng.random() < 0.4 else a for a in x]
+        y = [a + rng.choice([6e-21, 1.2e-20, 3e-17]) if rng.random() < 0.6 else a for a in x]
+        if dom == "pos":
+            x = [a if a > 0 else 6e-21 for a in x]
+            y = [a if a > 0 else 6e-21 for a in y]
+        return x, y
     if style == "near":          # y is x with some entries kept equal (hamming, zero terms)
         y = [a if rng.random() < 0.5 else b for a, b in zip(x, y)]
     if style == "prob":
@@ -77,7 +85,7 @@ def gen_pair(rng, dom, n, style):
     return x, y
 
 
-STYLES = ["plain", "unit", "wide", "grid", "near", "prob"]
+STYLES = ["plain", "unit", "wide", "grid", "near", "prob", "tiny"]
 
 
 def cases_for(rng, dom, reps):
